@@ -52,6 +52,7 @@ type vccSched struct {
 	ID    string   `json:"id"`
 	N     int      `json:"n"`
 	Burst int      `json:"burst"`
+	Bg    bool     `json:"bg"`
 	Cmds  []vccCmd `json:"cmds"`
 }
 
@@ -352,6 +353,25 @@ func (h *vccHarness) call(id string) int {
 	return served
 }
 
+// background issues un-held calls ("c<i>") for as long as the schedule runs, about one per millisecond: calls that
+// race with the table changes instead of sitting at quiescent points.
+func (h *vccHarness) background(stop chan struct{}, done chan struct{}) {
+	defer close(done)
+	for i := 0; i < 60; i++ {
+		select {
+		case <-stop:
+			return
+		default:
+		}
+		_ = h.call(fmt.Sprintf("c%d", i))
+		select {
+		case <-stop:
+			return
+		case <-time.After(time.Millisecond):
+		}
+	}
+}
+
 func (h *vccHarness) exec(cmd vccCmd, idx int) bool {
 	switch cmd.A {
 	case "Add":
@@ -428,7 +448,16 @@ func (h *vccHarness) exec(cmd vccCmd, idx int) bool {
 			return true
 		}
 		dl := time.Now().Add(h.wait)
+		extra := 0
 		for i := 0; i < h.burstN || (len(tbl) > 0 && !covered() && time.Now().Before(dl)); i++ {
+			if i >= h.burstN+2*len(tbl) { // a subconn is not ready yet (or never will be): keep trying, spaced out
+				extra++
+				d := time.Duration(extra) * 2 * time.Millisecond
+				if d > 200*time.Millisecond {
+					d = 200 * time.Millisecond
+				}
+				time.Sleep(d)
+			}
 			if k := h.call(fmt.Sprintf("b%d.%d", idx, i)); k >= 0 {
 				servedBy[k] = true
 			}
@@ -494,12 +523,27 @@ func (h *vccHarness) exec(cmd vccCmd, idx int) bool {
 func (h *vccHarness) runSchedule(sc *vccSched) bool {
 	h.reset(sc)
 	ok := true
+	var bgStop, bgDone chan struct{}
 	for i, c := range sc.Cmds {
+		if bgStop == nil && sc.Bg && i > 0 { // after the first Add: before any update gRPC only waits for the resolver
+			bgStop, bgDone = make(chan struct{}), make(chan struct{})
+			go h.background(bgStop, bgDone)
+		}
+		if h.broken { // a bounded wait ran out (reported by the event that found it): the rest would only wait again
+			break
+		}
 		if !h.exec(c, i) {
 			ok = false
 			h.broken = true
 			h.log(map[string]interface{}{"ev": "Unrealised", "at": i, "a": c.A, "k": c.K})
 			break
+		}
+	}
+	if bgStop != nil {
+		close(bgStop)
+		select {
+		case <-bgDone:
+		case <-time.After(2 * h.wait):
 		}
 	}
 	// answer whatever is still held, wait for the calls to end
